@@ -17,4 +17,5 @@ pub mod verif_http;
 pub mod verif_update;
 #[cfg(feature = "verif-hooks")]
 pub mod verif_c12;
+#[cfg(feature = "verif-hooks")]
 pub mod verif_filter;
